@@ -1,6 +1,7 @@
 import Vegeta.Go.Proto
 import Vegeta.Model.CodecResult
 import Vegeta.Spec.Layout
+import Vegeta.Model.GobValue
 /-! Driver operations of property C07 (ops are named `c07.<name>`).
 
 Result tokens: `attack seq code ts lat bytesOut bytesIn error body method url headers` with
@@ -143,6 +144,22 @@ def handle (op : String) (args : List String) : Option String :=
   | "c07.specjson" => do
     let (b, _) ← bytes.run args
     pure (showResults (Vegeta.Spec.Layout.specReadJSON b))
+  | "c07.gobpre" => pure ("ok " ++ hexEncode Vegeta.Model.GobValue.preamble)
+  | "c07.encgob" => do
+    -- zone ("u" = UTC location, else offset seconds), first call?, result
+    let ((z, first, r), _) ← (do
+      let zt ← tok
+      let z ← (if zt == "u" then pure Vegeta.Model.GobValue.Zone.utc else
+        match zt.toInt? with
+        | some o => pure (Vegeta.Model.GobValue.Zone.fixed o)
+        | none => failure : P Vegeta.Model.GobValue.Zone)
+      let f ← bool
+      let r ← resultP
+      pure (z, f, r)).run args
+    pure (showOpt hexEncode (Vegeta.Model.GobValue.encodeGobCall z first r))
+  | "c07.decgob" => do
+    let (b, _) ← bytes.run args
+    pure (showResults (Vegeta.Model.GobValue.decodeGob b))
   | "c07.equal" => do
     let ((a, b), _) ← (do let a ← resultP; let b ← resultP; pure (a, b)).run args
     pure (if a.equal b then "1" else "0")
